@@ -110,6 +110,28 @@ TEMPLATES = [
     {"cls": "type", "t": "from t | window «rows:1..0» (derive {x1 = count a})", "nospan": True},
     {"cls": "type", "t": "from t | window «range:3..1» (derive {x1 = count a})", "nospan": True},
     {"cls": "type", "t": "from t | «remove (from u | select {a, b})»", "nospan": True},
+    # ---------------------------------------------------------------- one template per reachable Error::new_simple site
+    # (the evidence lists, per site of the regenerated inventory, whether an error of that site was seen with a span)
+    {"cls": "type", "t": "from t | window rows:«a»..2 (derive {x = sum b})"},
+    {"cls": "resolution", "t": "from t | join u («==1»)", "nospan": True},
+    {"cls": "resolution", "t": "from t | join u («==t.id»)", "nospan": True},
+    {"cls": "resolution", "t": "let x = 1«»", "nospan": True},
+    {"cls": "resolution", "t": "# nothing«»", "nospan": True},
+    {"cls": "resolution", "t": "«prql version:\"^9\"\n»from t", "header": True, "nospan": True},
+    {"cls": "type", "t": "from [{a=1}] | «append [{a=1,b=2}]»", "nospan": True},
+    {"cls": "type", "t": "from t | take «foo:1» 2", "nospan": True},
+    {"cls": "type", "t": "from t | select {a, «t.*»} | intersect (from u | select {c})", "check_tok": False},
+    {"cls": "type", "t": "from t | derive {x = s\"{«t»}\"}"},
+    {"cls": "sql", "t": "from t | take 9223372036854775807.. | «take 2..»", "nospan": True},
+    {"cls": "sql", "t": "from «s\"SELEC * FROM t\"»", "nospan": True},
+    {"cls": "sql", "t": "from t | «remove u»", "target": "sql.sqlite", "nospan": True},
+    {"cls": "sql", "t": "from t | «intersect u»", "target": "sql.sqlite", "nospan": True},
+    {"cls": "sql", "t": "from t | derive {d = (date.to_text «\"%Y\"» d0)}", "target": "sql.generic"},
+    {"cls": "sql", "t": "from t | derive {d = (date.to_text «\"%Y\"» d0)}", "target": "sql.bigquery"},
+    {"cls": "sql", "t": "from t | derive {d = (date.to_text «\"%Q\"» d0)}", "target": "sql.mysql"},
+    {"cls": "sql", "t": "from t | derive {d = (date.to_text «\"%Q\"» d0)}", "target": "sql.duckdb"},
+    {"cls": "sql", "t": "from t | derive {d = (date.to_text «\"%Q\"» d0)}", "target": "sql.mssql"},
+    {"cls": "sql", "t": "from t | derive {d = (date.to_text «\"%Q\"» d0)}", "target": "sql.clickhouse"},
     # ---------------------------------------------------------------- SQL generation
     {"cls": "sql", "t": "from t | derive {d = (date.to_text «\"%Y\"» d0)}"},
     {"cls": "sql", "t": "from t | derive {d = «(date.to_text a b)»}"},
